@@ -1,6 +1,7 @@
 import IstioModel.Common.Wire
 import IstioModel.C10.Model
 import IstioModel.C10.Ambient
+import IstioModel.C10.Inbound
 
 /-! Line-protocol driver for C10 (streams `compose`, `ambient`). See harness/c10/main.go. -/
 namespace IstioModel.C10
@@ -73,6 +74,26 @@ def DRMode.ofTok : String → Option DRMode
   | "ISTIO_MUTUAL" => some .istioMutual
   | _ => none
 
+/-- The services of the `inbound` stream's proxy: 80 HTTP, 8080 TCP, 9090 unnamed (auto). -/
+def inboundSvcPorts : List (Nat × LProto) := [(80, .http), (8080, .tcp), (9090, .auto)]
+
+def LChain.show (c : LChain) : String :=
+  let dst := match c.dst with
+    | none => "*"
+    | some p => toString p
+  let alpn := match c.chain.alpn with
+    | .any => "0"
+    | .istio => "1"
+    | .plain => "2"
+  let sock := match c.chain.sock with
+    | .none => "0"
+    | .tls => "1"
+    | .mtls => "2"
+  s!"{dst}:{boolTok c.chain.transportTLS}.{alpn}.{boolTok c.chain.http}.{sock}"
+
+def showInbound (root : String) (pas : List PA) (w : Workload) : String :=
+  joinOrDash (sortStrings ((inboundChains root pas w inboundSvcPorts).map LChain.show))
+
 def step (s : DState) (toks : List String) : DState × String :=
   match toks with
   | "case" :: _ :: _ :: root :: fx :: _ => ({ root := dec root, pas := [], fx := parseFx fx }, "ok")
@@ -88,6 +109,9 @@ def step (s : DState) (toks : List String) : DState × String :=
   | ["chk", ns, labels, port, epTLS, dr] =>
     let w : Workload := { ns := dec ns, labels := parseLabels labels }
     (s, boolTok (checkMtlsEnabled s.root s.pas (DRMode.ofTok dr) (tokBool epTLS) w (port.toNat?.getD 0)))
+  | ["il", ns, labels] =>
+    let w : Workload := { ns := dec ns, labels := parseLabels labels }
+    (s, showInbound s.root s.pas w)
   | ["aq", ns, labels, ports] =>
     let w : Workload := { ns := dec ns, labels := parseLabels labels }
     (s, showAmbientG s.fx s.root s.pas w (parsePortList ports))
